@@ -71,10 +71,10 @@ SELF_INIT = {("TensorImage", "__init__"), ("TreeImage", "__init__"),
 
 def run(ctx):
     eff = ctx.eff
-    r1_observers(ctx, eff)
-    r2_r3_value_returning(ctx, eff)
-    r4_copy_hooks(ctx)
-    r5_defaults(ctx)
+    ctx.guard(r1_observers, eff)
+    ctx.guard(r2_r3_value_returning, eff)
+    ctx.guard(r4_copy_hooks)
+    ctx.guard(r5_defaults)
     ctx.assume("user callbacks (trans_fn, merge_fn, func of updateCoords/"
                "updatePayloads, loop bodies) are opaque: their own effects are "
                "excluded")
@@ -110,9 +110,10 @@ def _report_writes(ctx, rule, f, ws, what):
     for (site_key, site_text), lst in sorted(seen.items()):
         certain = [x for x in lst if not x[3].uncertain]
         if not certain:
-            raise AnalysisError(
+            ctx.errors.append(
                 "%s: an unresolved receiver decides the verdict for %s: %s"
                 % (rule, f.key, lst[0][3].render()))
+            continue
         loc, r, cond, w = certain[0]
         locs = sorted({x[0] for x in certain})
         condtxt = ""
@@ -319,6 +320,9 @@ def r5_defaults(ctx):
     ctx.require(rets, "C10.R5: RankAttrs.getDefault has no return")
     for r in rets:
         v = r.value
+        if isinstance(v, ast.Name):
+            d = pat.single_def(ctx, f, v)
+            v = d if d is not None else v
         fresh = isinstance(v, ast.Call) and text(v.func) in (
             "Payload", "deepcopy", "copy.deepcopy", "Payload.maybe_box")
         if fresh and text(v.func) == "Payload.maybe_box":
